@@ -16,6 +16,12 @@ shape (`t = u = 1`), or general (model- and wavelength-dependent `t`, `u`: uncer
 neither to the fluxes nor to one another).  The cube files of both memmap settings are each compared
 with the per-file package name by name (flux and error, 1e-12).
 
+Reach: per-file SEDs stored in mJy, Jy or erg/cm2/s (`SED.read(unit_flux=mJy)` converts), cubes in mJy or Jy
+(`val_factor` / `unc_factor` != 1); aperture-less packages (no aperture list: the per-file format carries the
+1e-30 cm placeholder of `SED.write`, the cube format no APERTURES table); fits from the per-file package with
+`use_memmap=True` as well; a cube package whose parameter table is in another row order is a compared refusal
+(the code raises ValueError, the model answers `namesMismatch`).
+
 Model side: driver `ordermatch` (= `sortToMatch`) on (SED names in directory-listing order, table
 names) predicts which listing position lands in which row; `convnames 1|2` (= `convolveV1/V2` on tagged
 SEDs) predicts names and row contents of both formats (driver op `convnames`).
